@@ -98,11 +98,15 @@ def c04():
 
 
 # ---------------------------------------------------------------------------
-def best_filtered_leaves(instance, filt, limit=200000):
+def best_filtered_leaves(instance, filt, limit=200000, observers=False):
     """Walk the REAL tree of Dispatcher.available_operations() choices under
     the real filter; return the set of makespans of the complete schedules
     reached (aggregation only: TLC takes the minimum and judges it)."""
     d = model.make_dispatcher(instance, filt)
+    if observers:      # as the environments do: observers that query the dispatcher from inside update()
+        from job_shop_lib.dispatching.feature_observers import IsReadyObserver, IsCompletedObserver
+        IsReadyObserver(d)
+        IsCompletedObserver(d)
     leaves = set()
     count = [0]
 
@@ -132,9 +136,11 @@ def best_filtered_leaves(instance, filt, limit=200000):
 def _c08_trace(arg):
     i, inst = arg
     s = dsession.DSession(i + 1, inst, [])
-    for filt in (["dom"], []):
-        out, res = _outcome(lambda: best_filtered_leaves(s.instance, filt))
-        s._ev({"a": "BestFiltered", "bfilt": filt, "out": out,
+    for filt, obs in ((["dom"], False), ([], False), (["dom"], True)):
+        if obs and i % 2:
+            continue
+        out, res = _outcome(lambda: best_filtered_leaves(s.instance, filt, observers=obs))
+        s._ev({"a": "BestFiltered", "bfilt": filt, "with_observers": obs, "out": out,
                "leaves": res[0] if out == "ok" else [], "nleaves": res[1] if out == "ok" else 0})
     return s.trace()
 
